@@ -94,6 +94,9 @@ func RunCalls() {
 		y, ys = xsel.Number(someNumber()), false
 	}
 	z, zs := x, xs
+	if ar >= 3 && f.max >= 3 && nd.Choice(2) == 1 {
+		z, zs = xsel.Number(someNumber()), false
+	}
 	ctx := []xsel.Cursor{doc, doc.Children()[0].Attributes()[0]}[nd.Choice(2)]
 	r, err := xsel.Exec(ctx, compile(f.name+"("+argLists[ar]+")"), xsel.WithVariable("x", x), xsel.WithVariable("y", y), xsel.WithVariable("z", z))
 	nd.Reach("calls")
@@ -112,6 +115,23 @@ func RunCalls() {
 		nd.Assert(!isPanicErr(err), "calls.well-typed.no-internal-panic:"+f.name)
 		nd.Assert(err == nil, "calls.well-typed.no-error:"+f.name)
 	}
+}
+
+// RunSubstringArgs: substring() on any string of <= 3 bytes with any doubles
+// as start and length never fails (the value is the subject of C07).
+func RunSubstringArgs() {
+	maxLen, nsrc := 2, 2
+	if nd.Tier() > 0 {
+		maxLen, nsrc = 3, 3
+	}
+	str := xsel.String(nd.Str(nd.Choice(maxLen + 1)))
+	a, b := xsel.Number(nd.F64()), xsel.Number(nd.F64())
+	src := []string{"substring($s, $a, $b)", "substring($s, $a)", "//a[substring(., $a, $b) = $s]"}[nd.Choice(nsrc)]
+	r, err := xsel.Exec(doc, compile(src), xsel.WithVariable("s", str), xsel.WithVariable("a", a), xsel.WithVariable("b", b))
+	nd.Reach("substring-args")
+	nd.Assert(r != nil || err != nil, "substring.no-nil-nil")
+	nd.Assert(!isPanicErr(err), "substring.no-internal-panic")
+	nd.Assert(err == nil, "substring.no-error")
 }
 
 // RunOperators: path and arithmetic operators on operands of arbitrary types.
@@ -186,4 +206,51 @@ func compileAll() *xsel.Grammar {
 		g := xsel.MustBuildExpr("count(//node() | //@* | //namespace::*) + string-length(string(/))")
 		return &g
 	}).(*xsel.Grammar)
+}
+
+// goMax / goMin: the portable definitions from the Go standard library
+// (math/dim.go), which the engine's models of math.Max / math.Min must equal.
+func goMax(x, y float64) float64 {
+	switch {
+	case math.IsInf(x, 1) || math.IsInf(y, 1):
+		return math.Inf(1)
+	case x != x || y != y:
+		return math.NaN()
+	case x == 0 && x == y:
+		if math.Signbit(x) {
+			return y
+		}
+		return x
+	}
+	if x > y {
+		return x
+	}
+	return y
+}
+
+func goMin(x, y float64) float64 {
+	switch {
+	case math.IsInf(x, -1) || math.IsInf(y, -1):
+		return math.Inf(-1)
+	case x != x || y != y:
+		return math.NaN()
+	case x == 0 && x == y:
+		if math.Signbit(x) {
+			return x
+		}
+		return y
+	}
+	if x < y {
+		return x
+	}
+	return y
+}
+
+// RunMaxMinLemma (translator validation): the engine's closed-form models of
+// math.Max and math.Min equal the library definitions on all pairs of doubles.
+func RunMaxMinLemma() {
+	x, y := nd.F64(), nd.F64()
+	nd.Reach("max-min-lemma")
+	nd.Assert(nd.SameF64(math.Max(x, y), goMax(x, y)), "lemma.math.Max")
+	nd.Assert(nd.SameF64(math.Min(x, y), goMin(x, y)), "lemma.math.Min")
 }
